@@ -165,6 +165,31 @@ Walk(st, stk, nstk, parts, follow, bud) ==
 
 IsEmptyPath(p) == ~p.abs /\ p.parts = <<>>
 
+(***************************************************************************)
+(* Lexical cleaning (path/filepath.Clean on component lists).  avfs cleans *)
+(* every path before it looks at the tree, and the properties DEFINE the   *)
+(* behaviour of an unclean path as that of its Clean() form - which is not *)
+(* the kernel's: "/w/zz/../a" with zz missing is ENOENT for the kernel.    *)
+(***************************************************************************)
+RECURSIVE LexCleanAcc(_, _, _)
+LexCleanAcc(abs, acc, parts) ==
+    IF parts = <<>> THEN acc
+    ELSE LET c == Head(parts) IN
+         IF c = "." \/ c = "" THEN LexCleanAcc(abs, acc, Tail(parts))
+         ELSE IF c = ".." THEN
+             IF acc # <<>> /\ Last(acc) # ".." THEN LexCleanAcc(abs, Front(acc), Tail(parts))
+             ELSE IF abs THEN LexCleanAcc(abs, acc, Tail(parts))
+             ELSE LexCleanAcc(abs, Append(acc, ".."), Tail(parts))
+         ELSE LexCleanAcc(abs, Append(acc, c), Tail(parts))
+
+CleanPath(p) ==
+    IF IsEmptyPath(p) THEN p
+    ELSE LET q == LexCleanAcc(p.abs, <<>>, p.parts) IN
+         [abs |-> p.abs, parts |-> IF ~p.abs /\ q = <<>> THEN <<".">> ELSE q]
+
+\* the call as an implementation that cleans its operands sees it (a symlink target is stored cleaned too)
+CleanCall(c) == [c EXCEPT !.p = CleanPath(@), !.q = CleanPath(@)]
+
 Resolve(st, p, follow, bud) ==
     IF IsEmptyPath(p) THEN WErr("ENOENT")
     ELSE IF p.abs THEN Walk(st, <<Root>>, <<>>, p.parts, follow, bud)
@@ -472,8 +497,8 @@ ChownCore(st, c, follow) ==
                       /\ (c.uid = -1 \/ c.uid = nd.uid)
                       /\ (c.gid = -1 \/ InGroup(st, c.gid))
                    \/ (c.uid = -1 /\ c.gid = -1)
-        \* set-uid/set-gid bits of non-directories are dropped by a chown that names an id
-        m == IF nd.k = "dir" \/ (c.uid = -1 /\ c.gid = -1) THEN nd.mode
+        \* set-uid/set-gid bits of non-directories are dropped by every chown, even chown(-1, -1)
+        m == IF nd.k = "dir" THEN nd.mode
              ELSE AndNot(nd.mode, SETUID + (IF HasBit(nd.mode, 8) THEN SETGID ELSE 0)) IN
     IF ~allowed THEN Fail("EPERM", st)
     ELSE Ok([st EXCEPT !.ino[r.id].uid = nu, !.ino[r.id].gid = ng, !.ino[r.id].mode = m])
